@@ -144,6 +144,8 @@ def r_extent(ctx, prog, rule="R-EXTENT"):
 
 
 def run(ctx, prog):
+    from rules import rawio
+    rawio.run(ctx, prog, writers=False)
     latch.run(ctx, prog, want_c16=False)
     r_bounded(ctx, prog)
     c16.r_reader(ctx, prog)
